@@ -2,7 +2,7 @@
    (bool, option, unit, list, prod, sumbool, comparison -> OCaml's own); nat, positive, N, Z
    stay the Coq inductives.  Run with coqc from /verif/ocaml so model.ml lands there. *)
 From Coq Require Import Extraction ExtrOcamlBasic.
-From Servitor Require Import Base Unicode Ansi AnsiSpec Term Oracles Style Html Gemtext Plaintext Mime Json Object Jtp Client Request Webfinger Listing Pub Links Collection Paging Splicer Config Hook ExtractAux History Feed Ui Startup.
+From Servitor Require Import Base Unicode Ansi AnsiSpec Term Oracles Style Html Gemtext Plaintext Mime Json Object Jtp Client Request Webfinger Listing Pub Links Collection Paging Open Splicer Config Hook ExtractAux History Feed Ui Startup.
 Extraction Language OCaml.
 Extraction "model.ml"
   text_eqb is_space is_control
@@ -16,6 +16,7 @@ Extraction "model.ml"
   remote_requests coll_page load_page resolve_webfinger jrd_accept wf_uri query_escape split_at wf_scan
   post_media_of post_attachments_of actor_pfp_of actor_banner_of select_best new_link
   post_timestamp actor_timestamp activity_timestamp
+  fetch_user_input source_page
   startup_error
   update run_task settle settle_gated snapshot ui_init resize view last_frame last_shown
   config_fields render_with_links gem_render_with_links plain_render_with_links split_nl
